@@ -476,13 +476,13 @@ const POOL: &[&str] = &[
 ];
 
 fn gen_string(rng: &mut Rng) -> String {
-    match rng.below(12) {
-        0..=5 => (*rng.pick(POOL)).to_string(),
-        6 | 7 => {
+    match rng.below(48) {
+        0..=23 => (*rng.pick(POOL)).to_string(),
+        24..=31 => {
             let n = rng.below(6) as usize;
             (0..n).map(|_| (*rng.pick(POOL)).to_string()).collect::<Vec<_>>().join("")
         }
-        8 => {
+        32..=34 => {
             // lengths around the 1→2 byte varint boundary
             let n = rng.range(118, 136) as usize;
             let mut s = String::new();
@@ -497,8 +497,8 @@ fn gen_string(rng: &mut Rng) -> String {
             }
             s
         }
-        9 => {
-            if rng.chance(1, 12) {
+        35 => {
+            if rng.chance(1, 30) {
                 let n = rng.range(16376, 16392) as usize;
                 "z".repeat(n)
             } else {
@@ -976,7 +976,7 @@ fn gen_mutations(rng: &mut Rng, per_base: usize, bases: usize, exhaustive_small:
             Some(st) => st.details().to_vec(),
             None => continue,
         };
-        if bytes.is_empty() {
+        if bytes.is_empty() || bytes.len() > 3000 {
             continue;
         }
         if exhaustive_small && bytes.len() <= 96 {
